@@ -68,19 +68,19 @@ func Setenv(k, v string) error    { return os.Setenv(k, v) }
 func LookupEnv(k string) (string, bool) {
 	return os.LookupEnv(k)
 }
-func Hostname() (string, error)             { return os.Hostname() }
-func Getpid() int                           { return os.Getpid() }
-func Getwd() (string, error)                { return os.Getwd() }
-func Exit(c int)                            { os.Exit(c) }
-func TempDir() string                       { return os.TempDir() }
-func Stat(p string) (FileInfo, error)       { return os.Stat(p) }
-func Lstat(p string) (FileInfo, error)      { return os.Lstat(p) }
-func ReadDir(p string) ([]DirEntry, error)  { return os.ReadDir(p) }
-func ReadFile(p string) ([]byte, error)     { return os.ReadFile(p) }
-func Readlink(p string) (string, error)     { return os.Readlink(p) }
-func SameFile(a, b FileInfo) bool           { return os.SameFile(a, b) }
+func Hostname() (string, error)                     { return os.Hostname() }
+func Getpid() int                                   { return os.Getpid() }
+func Getwd() (string, error)                        { return os.Getwd() }
+func Exit(c int)                                    { os.Exit(c) }
+func TempDir() string                               { return os.TempDir() }
+func Stat(p string) (FileInfo, error)               { return os.Stat(p) }
+func Lstat(p string) (FileInfo, error)              { return os.Lstat(p) }
+func ReadDir(p string) ([]DirEntry, error)          { return os.ReadDir(p) }
+func ReadFile(p string) ([]byte, error)             { return os.ReadFile(p) }
+func Readlink(p string) (string, error)             { return os.Readlink(p) }
+func SameFile(a, b FileInfo) bool                   { return os.SameFile(a, b) }
 func Expand(s string, f func(string) string) string { return os.Expand(s, f) }
-func ExpandEnv(s string) string             { return os.ExpandEnv(s) }
+func ExpandEnv(s string) string                     { return os.ExpandEnv(s) }
 
 // ---- control --------------------------------------------------------------
 
@@ -94,10 +94,15 @@ type Ctl struct {
 	Root       string
 	CrashAt    int  // crash before the CrashAt-th mutating primitive (1-based); 0 = never
 	RemoveDesc bool // RemoveAll / directory listings for removal in descending name order
-	mu         sync.Mutex
-	n          int
-	dead       bool
-	log        []string
+	// Fault, when set, is consulted before every primitive under Root — the
+	// mutating ones and open/seek/read/close of files. A non-nil answer makes
+	// that one primitive fail with it (an environment fault, not a crash: later
+	// primitives work). It is called with c's lock held and must not call back.
+	Fault func(desc string) error
+	mu    sync.Mutex
+	n     int
+	dead  bool
+	log   []string
 }
 
 var (
@@ -169,6 +174,12 @@ func (c *Ctl) step(desc string) error {
 		c.mu.Unlock()
 		return errDead
 	}
+	if c.Fault != nil {
+		if err := c.Fault(desc); err != nil {
+			c.mu.Unlock()
+			return err
+		}
+	}
 	c.n++
 	c.log = append(c.log, desc)
 	if c.CrashAt > 0 && c.n == c.CrashAt {
@@ -184,6 +195,17 @@ func (c *Ctl) step(desc string) error {
 	}
 	c.mu.Unlock()
 	return nil
+}
+
+// env is called before a non-mutating primitive (open, seek, read, close); only
+// an installed Fault can make it fail.
+func (c *Ctl) env(desc string) error {
+	if c == nil || c.Fault == nil {
+		return nil
+	}
+	c.mu.Lock()
+	defer c.mu.Unlock()
+	return c.Fault(desc)
 }
 
 // RunToCrash runs f and reports whether the crash point was reached. After the
@@ -434,6 +456,9 @@ func OpenFile(p string, flag int, perm FileMode) (*File, error) {
 	if c != nil && c.Dead() && flag&(O_WRONLY|O_RDWR) != 0 {
 		return nil, errDead
 	}
+	if err := c.env("open " + relOf(c, p)); err != nil {
+		return nil, err
+	}
 	f, err := os.OpenFile(p, flag, perm)
 	if err != nil {
 		return nil, err
@@ -443,17 +468,42 @@ func OpenFile(p string, flag int, perm FileMode) (*File, error) {
 
 func (f *File) name() string { return relOf(f.c, f.f.Name()) }
 
-func (f *File) Read(p []byte) (int, error)              { return f.f.Read(p) }
-func (f *File) ReadAt(p []byte, off int64) (int, error) { return f.f.ReadAt(p, off) }
-func (f *File) Seek(off int64, wh int) (int64, error)   { return f.f.Seek(off, wh) }
-func (f *File) Stat() (FileInfo, error)                 { return f.f.Stat() }
-func (f *File) Name() string                            { return f.f.Name() }
-func (f *File) Fd() uintptr                             { return f.f.Fd() }
-func (f *File) Close() error                            { return f.f.Close() }
-func (f *File) Sync() error                             { return f.f.Sync() }
-func (f *File) Readdir(n int) ([]FileInfo, error)       { return f.f.Readdir(n) }
-func (f *File) Readdirnames(n int) ([]string, error)    { return f.f.Readdirnames(n) }
-func (f *File) ReadDir(n int) ([]DirEntry, error)       { return f.f.ReadDir(n) }
+func (f *File) Read(p []byte) (int, error) {
+	if err := f.c.env("read " + f.name()); err != nil {
+		return 0, err
+	}
+	return f.f.Read(p)
+}
+func (f *File) ReadAt(p []byte, off int64) (int, error) {
+	if err := f.c.env("pread " + f.name()); err != nil {
+		return 0, err
+	}
+	return f.f.ReadAt(p, off)
+}
+func (f *File) Seek(off int64, wh int) (int64, error) {
+	if err := f.c.env("seek " + f.name()); err != nil {
+		return 0, err
+	}
+	return f.f.Seek(off, wh)
+}
+func (f *File) Stat() (FileInfo, error) { return f.f.Stat() }
+func (f *File) Name() string            { return f.f.Name() }
+func (f *File) Fd() uintptr             { return f.f.Fd() }
+
+// Close always closes the descriptor; an injected fault is the delayed write
+// error close(2) may report.
+func (f *File) Close() error {
+	ferr := f.c.env("close " + f.name())
+	err := f.f.Close()
+	if ferr != nil {
+		return ferr
+	}
+	return err
+}
+func (f *File) Sync() error                          { return f.f.Sync() }
+func (f *File) Readdir(n int) ([]FileInfo, error)    { return f.f.Readdir(n) }
+func (f *File) Readdirnames(n int) ([]string, error) { return f.f.Readdirnames(n) }
+func (f *File) ReadDir(n int) ([]DirEntry, error)    { return f.f.ReadDir(n) }
 
 func (f *File) Write(p []byte) (int, error) {
 	if len(p) > 0 {
